@@ -93,6 +93,7 @@ class Ctx:
         self.violation = None
         self.harness_error = None
         self.wall = 0.0
+        self.collected = {}
 
     # -- stats -------------------------------------------------------------------------
     def _stats(self, name):
@@ -149,6 +150,12 @@ class Ctx:
             self._stats(name)['wall'] += time.time() - t0
 
     def _unknown(self, vs):
+        if os.environ.get('VERIF_COLLECT'):
+            # bucketing mode (development aid): never stop, count every signature
+            for v in vs:
+                c = self.collected.setdefault(v.signature, [0, v.detail])
+                c[0] += 1
+            return []
         return [v for v in vs if not self.findings.is_known(v)]
 
     def _one(self, sub, name, case, corpus=None):
@@ -227,7 +234,7 @@ class Ctx:
     # -- output ------------------------------------------------------------------------
     def partial(self):
         out = {'shard': self.shard, 'violation': self.violation, 'harness_error': self.harness_error,
-               'wall': self.wall, 'sub': {}}
+               'wall': self.wall, 'sub': {}, 'collected': self.collected}
         for name, s in self.sub.items():
             d = dict(s)
             d['keys'] = sorted(s['keys'])
